@@ -622,7 +622,42 @@ def r205(facts, res):
     res.floor(R, 'width refusals', n, 8)
 
 
+def r206(facts, res):
+    """No product is computed in StorageT: every count fits the width exactly when it is refused otherwise (R20.1/R20.5), but a
+    product of two counts (a row offset = state index x row length) does not - it must be formed after widening to usize.  Decided:
+    no call of `Mul::mul` / `checked_mul` / `Shl` .. on a value of the storage type in the library crates."""
+    R = 'R20.6'
+    n = 0
+    bad = []
+    for b in facts.lib_bodies(CRATES):
+        if b.from_expansion:
+            continue
+        for bb, t in b.calls():
+            c = callee_of(t)
+            if c is None or c['name'] not in ('mul', 'mul_assign', 'checked_mul', 'wrapping_mul', 'saturating_mul', 'pow', 'shl', 'checked_shl'):
+                continue
+            st = c.get('self_ty') or (c.get('args') or [''])[0]
+            n += 1
+            if st.strip() == 'StorageT' or st.strip().endswith('::StorageT'):
+                bad.append((b, bb))
+        for bb, i, stmt in b.stmts():
+            rv = stmt.get('rv') or {}
+            if stmt['k'] == 'assign' and 'bin' in rv and rv['bin'] in ('Mul', 'MulWithOverflow', 'Shl'):
+                n += 1
+                l = op_local(rv['a'])
+                if l is not None and b.lty(l).strip() == 'StorageT':
+                    bad.append((b, bb))
+    if bad:
+        for b, bb in bad[:4]:
+            res.bad(R, 'product-in-storaget:%s' % strip_generics(b.path), loc_of(b, bb), 'a product is computed in the storage type: the factors fit the width, their product need not (an offset into a '
+                    'states x tokens table overflows u8 for 26 states and 10 tokens) - widen the factors to usize first', {'function': b.path})
+    else:
+        res.ok(R, 'no-product-in-storaget', 'lrtable/src/lib/statetable.rs', 'none of the %d products formed in the library crates is computed in the storage type' % n)
+    res.floor(R, 'products examined', n, 4)
+
+
 def run(facts, res):
+    r206(facts, res)
     r205(facts, res)
     r204(facts, res)
     r201(facts, res)
